@@ -169,6 +169,16 @@ def wl_util(spec, ctx, mods):
                 u.merge_labeled_intervals(xi, xl, yi, yl)
             elif op == "interp":
                 iv = gappy_intervals(r)
+                if r.random() < 0.12:
+                    # integer-typed intervals (whole seconds) with gaps; the time
+                    # points stay fractional
+                    iv = np.unique(np.round(iv * 2).astype(np.int64), axis=0)
+                    iv = iv[iv[:, 1] > iv[:, 0]]
+                    keep = [0]
+                    for j in range(1, len(iv)):
+                        if iv[j, 0] >= iv[keep[-1], 1]:
+                            keep.append(j)
+                    iv = iv[keep] if len(iv) else np.array([[0, 2], [3, 5]])
                 labels = gen.labels(r, len(iv))
                 pts = sorted([r.choice(iv.ravel().tolist()) if r.random() < 0.4 else
                               r.randrange(0, int(iv.max() * Q) + 40) / Q
